@@ -2,12 +2,17 @@
    Statements only (lemmas in Graph/Scheme_proofs.v, Graph/Match_proofs.v).
    The nine scheme files are regenerated from /repo on every run and read by
    the Coq parser and reader: the first theorem is a finite fact about them.
-   PARTIAL: the model (Graph/Scheme.v) IS the independent interpreter of the
-   scheme file; its agreement with GetDescriptors is decided by the
-   correspondence; get_descriptors_correct against a declarative Decomp
-   (DESIGN 5/C02) is not yet a theorem. *)
+   For every scheme and molecule graph: a decomposition is returned only if
+   EVERY atom is hit by exactly one centre pattern (whose names it then
+   carries), and an atom hit by none or by several makes the call fail with
+   the pattern-match error (Graph/Centres_proofs.v); which tuples a pattern
+   matches is characterised exactly in C08.  PARTIAL: the model
+   (Graph/Scheme.v) IS the independent interpreter of the scheme file; its
+   agreement with GetDescriptors is decided by the correspondence; the group
+   naming / descriptor counting / remap clauses are stated by the interpreter
+   itself (dictionary lemmas), not against a separate declarative spec. *)
 From Coq Require Import List NArith ZArith QArith Arith Bool.
-From PG Require Import Common.Strs Graph.Mol Graph.Match Graph.Scheme Graph.SchemeLoad Graph.Scheme_proofs Gen.Schemes.
+From PG Require Import Common.Strs Graph.Mol Graph.Match Graph.Scheme Graph.SchemeLoad Graph.Scheme_proofs Graph.Centres_proofs Gen.Schemes.
 Import ListNotations.
 
 (* every pattern and correction descriptor of every shipped scheme is readable
@@ -34,6 +39,20 @@ Proof. exact set_name_length. Qed.
 Theorem C02_fail_iff_centres_fail : forall sch sssr m e,
   get_descriptors sch sssr m = SRaise e <-> assign_centres sch (aromatize sssr m) = SRaise e.
 Proof. exact descriptors_fail_iff_centres_fail. Qed.
+(* ---------- "each atom is classified by the ONE centre pattern that matches it" ---------- *)
+(* hit_list m ps a = the centre patterns (in scheme order) having a match whose first atom is a *)
+Theorem C02_one_centre_per_atom : forall sch m nm, assign_centres sch m = SOk nm ->
+  length nm = natom m /\
+  forall a, (a < natom m)%nat -> exists p, hit_list m (s_patterns sch) a = [p] /\ nth_error nm a = Some (p_center p, p_periph p).
+Proof. exact assign_centres_unique. Qed.
+Print Assumptions C02_one_centre_per_atom.
+
+(* "matched by no centre pattern, or by more than one: the call fails with the pattern-match error" *)
+Theorem C02_no_or_many_centres_fail : forall sch m a, (a < natom m)%nat ->
+  length (hit_list m (s_patterns sch) a) <> 1%nat -> assign_centres sch m = SRaise PatternMatch.
+Proof. exact assign_centres_fails. Qed.
+Print Assumptions C02_no_or_many_centres_fail.
+
 Theorem C02_only_pattern_error : forall sch m e, assign_centres sch m = SRaise e -> e = PatternMatch.
 Proof. exact centres_only_pattern_error. Qed.
 Print Assumptions C02_only_pattern_error.
